@@ -111,11 +111,15 @@ def enumerate_extra():
 # --------------------------------------------------------------------------- containers
 
 
+CARRIERS_USED = set()
+
+
 class C2D:
     """values[j][i] for a FixedArray2D of size (w, h)  /  values[r][c] for a FixedMatrix (rows, cols)"""
 
     def __init__(self, fam, ti, dims, vals, cxx=None):
         self.fam, self.ti, self.dims, self.vals, self.cxx = fam, ti, dims, vals, cxx
+        self.carrier = None
 
     def cls(self):
         n = CONT2PY.get(self.cxx)
@@ -125,6 +129,18 @@ class C2D:
 
     def build(self):
         a, b = self.dims
+        if self.carrier is not None and self.fam == "a2d" and self.ti.cxx == "float" and hasattr(imath, "Color4fArray2D"):
+            # a STRIDED FloatArray2D: the channel property of a Color4fArray2D (component add_property of the 2-D colour arrays)
+            c4 = imath.Color4fArray2D(a, b)
+            k = self.carrier % 4
+            for j in range(b):
+                for i in range(a):
+                    v = self.vals[j][i]
+                    parts = [self.vals[(j + 1 + q) % b][(i + q) % a] for q in range(4)]
+                    parts[k] = v
+                    c4[(i, j)] = imath.Color4f(*parts)
+            CARRIERS_USED.add("Color4fArray2D." + "rgba"[k])
+            return getattr(c4, "rgba"[k])
         o = self.cls()(a, b)
         if self.fam == "a2d":
             for j in range(b):
@@ -224,6 +240,8 @@ class Ext:
                                 row[k] = rng.randrange(0, 2)
                         continue
                     specs.append(gen2d(fam, ti, dims, rng, ds, r_, ct) if kind == "cont" else ("scalar", ti, H.gen_value(ti, rng, ds, r_)))
+                    if kind == "cont" and not lv and ds == "nice" and dims in ((3, 2), (25, 9)) and ti.cxx == "float" and fam == "a2d":
+                        specs[-1].carrier = rng.randrange(4)
 
                 def call():
                     objs = [s.build() if isinstance(s, C2D) else H.copy_elem(s[1], s[2]) for s in specs]
@@ -538,7 +556,7 @@ def cmd_run(optpath, outpath):
             prog.write("END %s\n" % e["key"])
             prog.flush()
     H.SHIM.clear()
-    out.put({"t": "stats", "done": len(entries), "nan_bits_only_differences": 0, "dispatches": 0, "ranges": 0, "fallbacks": H.SHIM.total_fallbacks,
+    out.put({"t": "stats", "done": len(entries), "strided_sources": sorted(CARRIERS_USED), "nan_bits_only_differences": 0, "dispatches": 0, "ranges": 0, "fallbacks": H.SHIM.total_fallbacks,
              "thread_exceptions": H.SHIM.total_thread_exc, "wall": 0})
 
 
